@@ -25,7 +25,7 @@ contract(CR + 'asymmetric.rsa._modinv', trusted=True,
          ensures=['result == MODINV32(e)', 'result >= 0 and result < m', '(e * result) % m == 1'], raises={},
          doc="cryptography's modular inverse: a * modinv(a, m) == 1 (mod m) for a coprime to m (odd a, m = 2^32)")
 contract('base64.b64encode', trusted=True, params={'s': 'bytes'}, returns='bytes', modifies=[], ensures=['result == B64(s)'], raises={})
-contract('os.getlogin', trusted=True, params={}, returns='str', modifies=[], ensures=[], raises={'OSError': [], 'FileNotFoundError': []})
+contract('os.getlogin', trusted=True, params={}, returns='str', modifies=[], ensures=['result == LOGIN'], raises={'OSError': [], 'FileNotFoundError': []})
 
 contract('keygen.encode_pubkey',
          real=K + 'encode_pubkey',
@@ -44,7 +44,11 @@ contract('keygen.encode_pubkey',
          doc='the blob of the key loaded from the given file: modulus, exponent, n0inv = -1/n mod 2^32, rr = 2^4096 mod n')
 
 contract('keygen.get_user_info', real=K + 'get_user_info', params={}, returns='str', props=['C17'], modifies=[],
-         ensures=[('C17', 'space-user-at-host', "len(utf8(result)) >= 3 and utf8(result)[0:1] == b' '")], raises={'OSError': []})
+         ensures=[('C17', 'space-user-at-host', "len(utf8(result)) >= 3 and utf8(result)[0:1] == b' '"),
+                  ('C17', 'login-name-then-at-then-host-name-unknown-for-missing-ones',
+                   "result == ' ' + ite(len(utf8(LOGIN)) == 0, 'unknown', LOGIN) + '@' + ite(len(utf8(HOSTNAME)) == 0, 'unknown', HOSTNAME) "
+                   "or result == ' unknown@' + ite(len(utf8(HOSTNAME)) == 0, 'unknown', HOSTNAME)")],
+         raises={'OSError': []})
 
 contract('keygen.write_public_keyfile',
          real=K + 'write_public_keyfile',
